@@ -27,6 +27,12 @@ func init() {
 	stdModels["encoding/json.Marshal"] = hJSONMarshal
 	stdModels["encoding/json.MarshalIndent"] = hJSONMarshal
 	stdModels["encoding/json.Unmarshal"] = hJSONUnmarshal
+	// YAML rendering of a value is opaque text
+	yamlMarshal := func(ex *Exec, c *frame, fn *ssa.Function, a []Value) Value {
+		return Tuple{Slice{Arr: &Array{StrSrc: "<yaml>"}, Len: -1, Cap: -1}, Iface{}}
+	}
+	stdModels["gopkg.in/yaml.v2.Marshal"] = yamlMarshal
+	stdModels["github.com/jsccast/yaml.Marshal"] = yamlMarshal
 }
 
 func hJSONMarshal(ex *Exec, c *frame, fn *ssa.Function, a []Value) Value {
